@@ -948,64 +948,54 @@ class Terminal:
         data needs to already be a binary string matching the binary type of
         the parameter.
         """
-        if len(data) <= 4 and subindex is not None:
-            async with self.mbx_lock:
+        sub = 1 if subindex is None else subindex
+        async with self.mbx_lock:
+            if 0 < len(data) <= 4 and subindex is not None:
+                stop = len(data)
                 await self.mbx_send(
                         MBXType.COE, "HBHB4s", CoECmd.SDOREQ.value << 12,
                         ODCmd.DOWN_EXP.value | (((4 - len(data)) << 2) & 0xc),
                         index, subindex, data)
-                type, data = await self.mbx_recv()
-            if type is not MBXType.COE:
-                raise EtherCatError(f"expected CoE, got {type}, {data} "
-                                    f"{odata} {index:x}:{subindex:x}")
-            coecmd, sdocmd, idx, subidx = unpack("<HBHB", data[:6])
-            if idx != index or subindex != subidx:
-                raise EtherCatError(f"requested index {index:x}:{subindex:x}, "
-                                    f"got {idx:x}:{subidx:x}")
-            if coecmd >> 12 != CoECmd.SDORES.value:
-                raise EtherCatError(f"expected CoE SDORES, got {coecmd>>12:x} "
-                                    f"for {index:x}:{subindex:x}")
-        else:
-            async with self.mbx_lock:
+            else:
                 stop = min(len(data), self.mbx_out_sz - 16)
                 await self.mbx_send(
-                        MBXType.COE, "HBHB4x", CoECmd.SDOREQ.value << 12,
+                        MBXType.COE, "HBHBI", CoECmd.SDOREQ.value << 12,
                         ODCmd.DOWN_INIT_CA.value if subindex is None
                         else ODCmd.DOWN_INIT.value,
-                        index, 1 if subindex is None else subindex,
-                        data=data[:stop])
-                type, data = await self.mbx_recv()
-                if type is not MBXType.COE:
-                    raise EtherCatError(f"expected CoE, got {type}")
-                coecmd, sdocmd, idx, subidx = unpack("<HBHB", data[:6])
-                if coecmd >> 12 != CoECmd.SDORES.value:
-                    raise EtherCatError(f"expected CoE SDORES, got {coecmd>>12:x}")
-                if idx != index or subindex != subidx:
-                    raise EtherCatError(f"requested index {index}, got {idx}")
-                toggle = 0
-                while stop < len(data):
-                    start = stop
-                    stop = min(len(data), start + self.mbx_out_sz - 9)
-                    if stop == len(data):
-                        if stop - start < 7:
-                            cmd = 1 + (7-stop+start << 1)
-                            d = data[start:stop] + b"\0" * (7 - stop + start)
-                        else:
-                            cmd = 1
-                            d = data[start:stop]
-                        await self.mbx_send(
-                                MBXType.COE, "HBHB4x", CoECmd.SDOREQ.value << 12,
-                                cmd + toggle, index,
-                                1 if subindex is None else subindex, data=d)
-                        type, data = await self.mbx_recv()
-                        if type is not MBXType.COE:
-                            raise EtherCatError(f"expected CoE, got {type}")
-                        coecmd, sdocmd, idx, subidx = unpack("<HBHB", data[:6])
-                        if coecmd >> 12 != CoECmd.SDORES.value:
-                            raise EtherCatError(f"expected CoE SDORES")
-                        if idx != index or subindex != subidx:
-                            raise EtherCatError(f"requested index {index}")
-                    toggle ^= 0x10
+                        index, sub, len(data), data=data[:stop])
+            type = None
+            while type is not MBXType.COE:
+                type, rdata = await self.mbx_recv()
+            coecmd, sdocmd, idx, subidx = unpack("<HBHB", rdata[:6])
+            if coecmd >> 12 != CoECmd.SDORES.value:
+                raise EtherCatError(f"expected CoE SDORES, got {coecmd>>12:x} "
+                                    f"for {index:x}:{sub:x}")
+            if idx != index or subidx != sub:
+                raise EtherCatError(f"requested index {index:x}:{sub:x}, "
+                                    f"got {idx:x}:{subidx:x}")
+            toggle = 0
+            while stop < len(data):
+                start = stop
+                stop = min(len(data), start + self.mbx_out_sz - 9)
+                d = data[start:stop]
+                cmd = toggle
+                if stop == len(data):
+                    cmd |= 1  # last segment
+                if len(d) < 7:
+                    cmd |= (7 - len(d)) << 1
+                    d += b"\0" * (7 - len(d))
+                await self.mbx_send(
+                        MBXType.COE, "HB", CoECmd.SDOREQ.value << 12, cmd,
+                        data=d)
+                type = None
+                while type is not MBXType.COE:
+                    type, rdata = await self.mbx_recv()
+                coecmd, sdocmd = unpack("<HB", rdata[:3])
+                if coecmd >> 12 != CoECmd.SDORES.value \
+                        or sdocmd != 0x20 | toggle:
+                    raise EtherCatError(f"download segment for {index:x}:"
+                                        f"{sub:x} not confirmed")
+                toggle ^= 0x10
 
     async def read_object_entry(self, index, subidx):
         """read a object entry from the CoE self description"""
